@@ -173,12 +173,9 @@ func H03_caps() {
 			in = append([]byte{0x1b}, in...)
 		}
 		in = append(in, sfx)
-		evs, left := h03Decode(t, in, false)
+		// ESC ESC [ A: the first ESC counts as the Alt prefix once the escape timeout passes
+		evs, left := h03Decode(t, in, alt && c.seq[0] == 0x1b)
 		t.escaped = false
-		if alt && c.seq[0] == 0x1b {
-			// ESC ESC [ A: the first ESC is a lone ESC only after the timeout; not judged
-			continue
-		}
 		ok := len(evs) == 2 && left == 0
 		vsymAssert(ok, "a key sequence followed by a key press decodes to exactly two events: "+ti.Name)
 		if !ok {
@@ -270,7 +267,12 @@ func H03_xtermmod() {
 	default:
 		vsymCutPath("base key has no xterm modifier form")
 	}
-	evs, left := h03Decode(t, in, false)
+	// ESC immediately before the sequence adds Alt to the key's own modifiers
+	alt := vsymChoice("alt", 2) == 1
+	if alt {
+		in = append([]byte{0x1b}, in...)
+	}
+	evs, left := h03Decode(t, in, alt)
 	vsymAssert(len(evs) == 1 && left == 0, "a modified key sequence decodes to exactly one event")
 	if len(evs) != 1 {
 		return
@@ -293,6 +295,9 @@ func H03_xtermmod() {
 	}
 	if m&8 != 0 {
 		want |= ModMeta
+	}
+	if alt {
+		want |= ModAlt
 	}
 	vsymAssert(k.Key() == b.key, "the modified sequence reports the base key")
 	vsymAssert(k.Modifiers() == want, "the modifier parameter p decodes to the bits of p-1: Shift 1, Alt 2, Ctrl 4, Meta 8")
